@@ -251,26 +251,40 @@ int32_t psEccDsaVerify(psPool_t *pool, const psEccKey_t *key,
         }
     }
 
-    /* compute u1*mG + u2*mQ = mG */
-    if ((err = eccMulmod(pool, &u1, mG, mG, &m, 0, A)) != PS_SUCCESS)
-    {
-        goto error;
-    }
-    if ((err = eccMulmod(pool, &u2, mQ, mQ, &m, 0, A)) != PS_SUCCESS)
-    {
-        goto error;
-    }
-
     /* find the montgomery mp */
     if ((err = pstm_montgomery_setup(&m, &mp)) != PS_SUCCESS)
     {
         goto error;
     }
 
-    /* add them */
-    if ((err = eccProjectiveAddPoint(pool, mQ, mG, mG, &m, &mp, A)) != PS_SUCCESS)
+    if (pstm_iszero(&u1) == PS_TRUE)
     {
-        goto error;
+        /* The digest is a multiple of the group order: u1*mG is the point
+           at infinity (which eccMulmod cannot produce) and the sum is
+           u2*mQ alone. */
+        if ((err = eccMulmod(pool, &u2, mQ, mG, &m, 0, A)) != PS_SUCCESS)
+        {
+            goto error;
+        }
+    }
+    else
+    {
+        /* compute u1*mG + u2*mQ = mG */
+        if ((err = eccMulmod(pool, &u1, mG, mG, &m, 0, A)) != PS_SUCCESS)
+        {
+            goto error;
+        }
+        if ((err = eccMulmod(pool, &u2, mQ, mQ, &m, 0, A)) != PS_SUCCESS)
+        {
+            goto error;
+        }
+
+        /* add them */
+        if ((err = eccProjectiveAddPoint(pool, mQ, mG, mG, &m, &mp, A))
+            != PS_SUCCESS)
+        {
+            goto error;
+        }
     }
 
     /* reduce */
